@@ -960,8 +960,10 @@ class Router:
         # Step 2: look up DE PV from LocT
         de_entry = self.location_table.get_entry(
             request.destination) if request.destination else None
-        if de_entry is None:
-            # No LocTE for destination → invoke Location Service (§10.3.7.1.2)
+        if de_entry is None or de_entry.ls_pending is True:
+            # No LocTE for destination, or a Location Service lookup for it is still in
+            # progress (the LocTE is only a placeholder) → invoke / queue behind the
+            # Location Service (§10.3.7.1.2) so that requests keep their order.
             assert request.destination is not None
             self.gn_ls_request(request.destination, request)
             return GNDataConfirm(result_code=ResultCode.ACCEPTED)
@@ -1288,8 +1290,10 @@ class Router:
         """
         with self._ls_lock:
             entry = self.location_table.get_entry(sought_gn_addr)
-            if entry is not None and entry.ls_pending:
-                # LS already in-progress → just queue the request
+            if (entry is not None and entry.ls_pending) or sought_gn_addr in self._ls_retransmit_counters:
+                # LS already in-progress → just queue the request (the placeholder LocTE
+                # may have been removed by a location table refresh in the meantime)
+                self.location_table.ensure_entry(sought_gn_addr).ls_pending = True
                 if buffered_request is not None:
                     self._ls_packet_buffers.setdefault(
                         sought_gn_addr, []).append(buffered_request)
